@@ -159,8 +159,21 @@ pub fn setup_frontend(c: FeCfg, maxq: u64) -> (Frontend, UnixStream) {
     f.set_protocol_features(VhostUserProtocolFeatures::from_bits_retain(pf)).expect("set_protocol_features");
     let mut d = sys::drain_nb(pfd);
     d.close_fds();
+    // The setting handed to set_hdr_flags() may carry bits that are not the caller's to choose (version
+    // field, reserved bits): whatever it carries, the wire has version 1, no reserved bit, and NEED_REPLY
+    // iff the setting contains it. (REPLY is never part of a setting: a request with REPLY would be the
+    // caller's own mistake.)
+    static NOISE: std::sync::atomic::AtomicUsize = std::sync::atomic::AtomicUsize::new(0);
+    let noise = match NOISE.fetch_add(1, std::sync::atomic::Ordering::Relaxed) % 4 {
+        0 => VhostUserHeaderFlag::empty(),
+        1 => VhostUserHeaderFlag::VERSION,
+        2 => VhostUserHeaderFlag::RESERVED_BITS,
+        _ => VhostUserHeaderFlag::VERSION | VhostUserHeaderFlag::RESERVED_BITS,
+    };
     if c.need_reply {
-        f.set_hdr_flags(VhostUserHeaderFlag::NEED_REPLY);
+        f.set_hdr_flags(VhostUserHeaderFlag::NEED_REPLY | noise);
+    } else if !noise.is_empty() {
+        f.set_hdr_flags(noise);
     }
     (f, peer)
 }
